@@ -124,15 +124,26 @@ class FileDisk(Disk):
     uberjob's own PickleFileStore (through the syscall fault layer), with
     modified times on the virtual clock.  Everything else stays in memory."""
 
-    def __init__(self, scratch, file_names):
+    def __init__(self, scratch, file_names, touch=(), siblings=False):
         super().__init__()
         self.scratch = scratch
         self.file_names = set(file_names)
+        self.touch = set(touch)        # stores that are TouchFileStore files (they hold None)
+        self.siblings = siblings       # pathlib paths, pairs of stores sharing a stem (x.pkl / x.dat)
 
     def path(self, name):
         import os
+        import pathlib
 
+        if self.siblings:
+            k = sorted(self.file_names).index(name)
+            return pathlib.Path(self.scratch) / (f"pair{k // 2}" + (".pkl" if k % 2 else ".dat"))
         return os.path.join(self.scratch, name + ".pkl")
+
+    def _store(self, name):
+        from uberjob.stores import PickleFileStore, TouchFileStore
+
+        return (TouchFileStore if name in self.touch else PickleFileStore)(self.path(name))
 
     def tick(self, t):
         t = round(max(t, self.last + self.tickv), 6)
@@ -144,10 +155,8 @@ class FileDisk(Disk):
             return super().put(name, value, t)
         if self.frozen:
             return
-        from uberjob.stores import PickleFileStore
-
         self._now = t
-        PickleFileStore(self.path(name)).write(value)   # real staged write; mtime stamped at close by the fs layer
+        self._store(name).write(value)   # real staged write of a bundled store; mtime stamped at close by the fs layer
         self.writes += 1
         return self.mtime(name)
 
@@ -165,9 +174,7 @@ class FileDisk(Disk):
     def value(self, name):
         if name not in self.file_names:
             return super().value(name)
-        from uberjob.stores import PickleFileStore
-
-        return PickleFileStore(self.path(name)).read()
+        return self._store(name).read()
 
     def mtime(self, name):
         import os
